@@ -393,6 +393,10 @@ type groupSpec struct {
 	suggest  string // "" = none
 	altLines []int
 	noReport bool // Suggest() without Report(): the message is "suggestion: " + the Suggest template
+	// a family of syntax rules that all match the SAME calls and bind the same names to different arguments; the earlier ones
+	// reject through Where(): the rule that reports interpolates / relocates to ITS OWN bindings
+	where  string                   // Where() expression as written
+	accept func(args []string) bool // the filter on the argument texts (positional)
 	dup      bool // the first alternative is written twice: the lines of the later alternatives must not shift
 }
 
@@ -441,6 +445,12 @@ type engineObs struct {
 	BytesSame bool   `json:"bytes_same"` // the file bytes are unchanged
 	ApplyErr  string `json:"apply_err,omitempty"`
 	Panic     string `json:"panic,omitempty"`
+	// the family of comment rules that name their groups alike (cfam.go)
+	Rule       string   `json:"rule,omitempty"`       // the rule (alternative) that must report
+	Comment    string   `json:"comment,omitempty"`    // the comment's text
+	Rejected   []string `json:"rejected,omitempty"`   // rules that matched this comment earlier and rejected it
+	Stale      bool     `json:"stale,omitempty"`      // one of them captured another text under a name of the reporting rule
+	Unexpected bool     `json:"unexpected,omitempty"` // a report where no rule of the family accepts
 }
 
 // printNoComments dumps the file's AST without positions, comments and resolution data: equal dumps = equal ASTs
@@ -542,6 +552,26 @@ func engineLevel(enc *json.Encoder, tmp string, rng *rand.Rand, ngroups int) {
 			altLines: []int{lineOf("`pb0_0("), lineOf("`pb0_1(")}},
 		groupSpec{fn: "pb1", bundle: true, wgroup: "bnd/bplain", names: []string{"v"}, alts: 1, msg: "bundle plain $v", suggest: "$$", altLines: []int{lineOf("`pb1_0(")}},
 		groupSpec{fn: "pb2", bundle: true, wgroup: "bnd/batonly", names: []string{"v", "vv"}, alts: 1, msg: "bundle at-only $vv", at: "v", altLines: []int{lineOf("`pb2_0(")}})
+	sfBase := len(groups)
+	amp := regexp.MustCompile(`^&`)
+	quo := regexp.MustCompile(`^"`)
+	groups = append(groups,
+		groupSpec{fn: "sf", wgroup: "sfA", names: []string{"x", "y"}, alts: 1, msg: "A:$x,$y", where: `m["x"].Text == "x"`,
+			accept: func(a []string) bool { return a[0] == "x" }},
+		groupSpec{fn: "sf", wgroup: "sfB", names: []string{"y", "x"}, alts: 1, msg: "B:$x,$y|$$", at: "x", suggest: "$y", where: "m[\"x\"].Text.Matches(`^&`) && m[\"y\"].Text != \"x\"",
+			accept: func(a []string) bool { return amp.MatchString(a[1]) && a[0] != "x" }},
+		groupSpec{fn: "sf", wgroup: "sfC", names: []string{"xy", "x"}, alts: 1, msg: "C:$x|$xy", suggest: "sf_0($x, $xy)", where: "!m[\"xy\"].Text.Matches(`^\"`)",
+			accept: func(a []string) bool { return !quo.MatchString(a[0]) }},
+		groupSpec{fn: "sf", wgroup: "sfD", names: []string{"x", "xy"}, alts: 1, msg: "D:$xy then $x", at: "xy",
+			accept: func(a []string) bool { return true }})
+	sfWinner := func(args []string) int {
+		for k := sfBase; k < len(groups); k++ {
+			if groups[k].accept(args) {
+				return k
+			}
+		}
+		return -1
+	}
 	patText := func(gi, alt int) string {
 		g := groups[gi]
 		var ps []string
@@ -614,6 +644,24 @@ func engineLevel(enc *json.Encoder, tmp string, rng *rand.Rand, ngroups int) {
 		}
 		w("\n}\n\n")
 	}
+	// the family of syntax rules that compete for the calls of sf_0 (in rule order: sfA, sfB, sfC, sfD)
+	for k := sfBase; k < len(groups); k++ {
+		g := &groups[k]
+		w(fmt.Sprintf("func %s(m dsl.Matcher) {\n\tm.Match(\n", g.wgroup))
+		g.altLines = []int{line}
+		w("\t\t`" + patText(k, 0) + "`,\n\t)")
+		if g.where != "" {
+			w(".\n\t\tWhere(" + g.where + ")")
+		}
+		if g.at != "" {
+			w(fmt.Sprintf(".\n\t\tAt(m[%q])", g.at))
+		}
+		w(".\n\t\tReport(`" + g.msg + "`)")
+		if g.suggest != "" {
+			w(".\n\t\tSuggest(`" + g.suggest + "`)")
+		}
+		w("\n}\n\n")
+	}
 	// comment rules with two alternatives on different lines
 	cLines := [2]int{}
 	w("func gc(m dsl.Matcher) {\n\tm.MatchComment(\n")
@@ -624,17 +672,56 @@ func engineLevel(enc *json.Encoder, tmp string, rng *rand.Rand, ngroups int) {
 	w("\t\t`beta-\\d+`,\n\t).Report(`c:$$`)\n}\n")
 	// a comment rule with Suggest() only: the message is the suggestion template behind "suggestion: ", truncated there and
 	// nowhere else
+	gsLine := line + 2
 	w("\nfunc gs(m dsl.Matcher) {\n\tm.MatchComment(`gamma-(?P<long>\\w+)`).Suggest(`<$long|$$>`)\n}\n")
+	// a family of comment rules that name their groups alike; most comments are matched by several of them and rejected by
+	// the earlier ones (cfam.go). The comment rules above come first in the load order: they are a part of the simulated list.
+	commentRules := []cfRule{
+		{group: "gc", pats: []string{`alpha-\d+`, `alpha-\d+`, `beta-\d+`}, msg: "c:$$", lines: []int{cLines[0], cLines[0] + 2, cLines[1]}},
+		{group: "gs", pats: []string{`gamma-(?P<long>\w+)`}, sugg: "<$long|$$>", lines: []int{gsLine}},
+	}
+	for i := range commentRules {
+		commentRules[i].compile()
+	}
+	for _, r := range cfCatalogue() {
+		w(fmt.Sprintf("\nfunc %s(m dsl.Matcher) {\n\tm.MatchComment(\n", r.group))
+		for _, p := range r.pats {
+			r.lines = append(r.lines, line)
+			w("\t\t`" + p + "`,\n")
+		}
+		w("\t)")
+		if len(r.filt) > 0 {
+			w(".\n\t\tWhere(" + r.whereDSL() + ")")
+		}
+		if r.at != "" {
+			w(fmt.Sprintf(".\n\t\tAt(m[%q])", r.at))
+		}
+		if r.msg != "" {
+			w(".\n\t\tReport(`" + r.msg + "`)")
+		}
+		if r.sugg != "" {
+			w(".\n\t\tSuggest(`" + r.sugg + "`)")
+		}
+		w("\n}\n")
+		commentRules = append(commentRules, r)
+	}
 
 	// ---- target file
 	var tb strings.Builder
 	tb.WriteString(targetPrelude)
+	declared := map[string]bool{}
 	for _, g := range groups {
 		for alt := 0; alt < g.alts; alt++ {
-			fmt.Fprintf(&tb, "func %s_%d(args ...interface{}) int { return 0 }\n", g.fn, alt)
+			if name := fmt.Sprintf("%s_%d", g.fn, alt); !declared[name] {
+				declared[name] = true
+				fmt.Fprintf(&tb, "func %s(args ...interface{}) int { return 0 }\n", name)
+			}
 		}
 	}
 	tb.WriteString("\n// alpha-1 here\n/* x beta-22 y */\n// see gamma-0123456789012345678901234567890123456789 there\n\n")
+	for _, cm := range cfComments(rng) {
+		tb.WriteString(cm + "\n\n")
+	}
 	var sites []site
 	curFn := ""
 	emitSite := func(gi, alt int, prefix string) {
@@ -646,11 +733,28 @@ func engineLevel(enc *json.Encoder, tmp string, rng *rand.Rand, ngroups int) {
 		if g.variadic {
 			nargs = len(g.names) - 1 + rng.Intn(4)
 		}
+		var chosen []poolExpr
+		if g.accept != nil {
+			// arguments on which the rules in front of this one reject and this one accepts
+			for try := 0; ; try++ {
+				chosen = []poolExpr{pool[rng.Intn(len(pool))], pool[rng.Intn(len(pool))]}
+				if sfWinner([]string{chosen[0].text, chosen[1].text}) == gi {
+					break
+				}
+				if try > 5000 {
+					fmt.Fprintln(os.Stderr, "sfam: no arguments reach", g.wgroup)
+					os.Exit(3)
+				}
+			}
+		}
 		for k := 0; k < nargs; k++ {
 			if k > 0 {
 				tb.WriteString([]string{", ", ",  ", ",\n\t\t"}[rng.Intn(3)])
 			}
 			e := pool[rng.Intn(len(pool))]
+			if chosen != nil {
+				e = chosen[k]
+			}
 			a := argSite{from: tb.Len(), e: e}
 			tb.WriteString(e.text)
 			a.to = tb.Len()
@@ -665,7 +769,11 @@ func engineLevel(enc *json.Encoder, tmp string, rng *rand.Rand, ngroups int) {
 	nfn, count := 0, 0
 	for gi, g := range groups {
 		for alt := 0; alt < g.alts; alt++ {
-			for k := 0; k < 2; k++ {
+			reps := 2
+			if g.accept != nil {
+				reps = 4
+			}
+			for k := 0; k < reps; k++ {
 				if count%7 == 6 {
 					if curFn != "" {
 						tb.WriteString("}\n\n")
@@ -741,6 +849,7 @@ func engineLevel(enc *json.Encoder, tmp string, rng *rand.Rand, ngroups int) {
 		t     *hutil.Target
 		src   []byte
 		shift int
+		nl    []int // CRLF version: nl[o] = newlines in front of offset o of the original (each became two bytes)
 		print string
 		what  string
 		// only analysed under TruncateLen 0; a run on ANOTHER path goes through the state just before this one
@@ -771,6 +880,26 @@ func engineLevel(enc *json.Encoder, tmp string, rng *rand.Rand, ngroups int) {
 	if err := os.WriteFile(filepath.Join(filepath.Dir(versions[0].t.Path), "grammar.y"), []byte(strings.Repeat("%% the grammar, not the file that is analysed\n", len(src)/40+2)), 0o644); err != nil {
 		fmt.Fprintln(os.Stderr, "target:", err)
 		os.Exit(3)
+	}
+	// a file that begins with a UTF-8 byte order mark (legal Go; some editors write it): the scanner skips the mark, all token
+	// offsets count its three bytes -- and so must the bytes the texts are cut from
+	bom := "\xef\xbb\xbf"
+	versions = append(versions, mkVersion(append([]byte(bom), swapped...), len(bom),
+		"9th version of the file at the same path: a UTF-8 byte order mark in front of the package clause, every arr is brr"))
+	versions[len(versions)-1].onlyL0 = true
+	// a checkout with CRLF line endings: every offset lies further down by the number of lines in front of it, nodes of several
+	// lines contain the carriage returns -- the texts are the bytes of the file, whatever the parser normalises for itself
+	{
+		nl := make([]int, len(src)+1)
+		for i, b := range src {
+			nl[i+1] = nl[i]
+			if b == '\n' {
+				nl[i+1]++
+			}
+		}
+		v := mkVersion(bytes.ReplaceAll(src, []byte("\n"), []byte("\r\n")), 0, "10th version of the file at the same path: CRLF line endings")
+		v.nl, v.onlyL0 = nl, true
+		versions = append(versions, v)
 	}
 	// ... and the same path once more, parsed into a FileSet of its own (the rules stay loaded with the first one)
 	own := token.NewFileSet()
@@ -841,11 +970,22 @@ func engineLevel(enc *json.Encoder, tmp string, rng *rand.Rand, ngroups int) {
 		return reports, ""
 	}
 	emit := func(v version, L int, reports []frep) {
-		src, sh := v.src, v.shift
+		src := v.src
+		// where the byte at offset o of the original file lies in this version
+		at := func(o int) int {
+			if v.nl != nil {
+				return o + v.shift + v.nl[o]
+			}
+			return o + v.shift
+		}
 		// reports by the start offset of the whole-match site they belong to
 		bySite := map[int][]frep{}
-		var commentReports, suggOnly []frep
+		var commentReports, suggOnly, famReports []frep
 		for _, r := range reports {
+			if strings.HasPrefix(r.Group, "cf") {
+				famReports = append(famReports, r)
+				continue
+			}
 			if r.Group == "gc" {
 				commentReports = append(commentReports, r)
 				continue
@@ -855,8 +995,8 @@ func engineLevel(enc *json.Encoder, tmp string, rng *rand.Rand, ngroups int) {
 				continue
 			}
 			// a report belongs to the site whose span contains its node
-			idx := sort.Search(len(sites), func(i int) bool { return sites[i].to+v.shift > r.Pos })
-			if idx < len(sites) && sites[idx].from+v.shift <= r.Pos {
+			idx := sort.Search(len(sites), func(i int) bool { return at(sites[i].to) > r.Pos })
+			if idx < len(sites) && at(sites[idx].from) <= r.Pos {
 				bySite[idx] = append(bySite[idx], r)
 			} else {
 				bySite[-1] = append(bySite[-1], r)
@@ -868,6 +1008,15 @@ func engineLevel(enc *json.Encoder, tmp string, rng *rand.Rand, ngroups int) {
 		for si, s := range sites {
 			g := groups[s.group]
 			o := engineObs{K: "engine", Group: s.group, Alt: s.alt, L: L, Msg: g.msg, Sugg: g.suggest, At: g.at, SrcN: len(src), AltLines: g.altLines, Version: v.what, WGroup: g.wgroup}
+			if g.accept != nil {
+				o.Rule = "m.Match(`" + patText(s.group, 0) + "`)"
+				if g.where != "" {
+					o.Rule += ".Where(" + g.where + ")"
+				}
+				for k := sfBase; k < s.group; k++ {
+					o.Rejected = append(o.Rejected, "m.Match(`"+patText(k, 0)+"`).Where("+groups[k].where+")")
+				}
+			}
 			if o.Sugg == "OWN" {
 				o.Sugg = strings.ReplaceAll(patText(s.group, 0), "$*", "$")
 				o.OwnText = s.alt == 0
@@ -878,23 +1027,23 @@ func engineLevel(enc *json.Encoder, tmp string, rng *rand.Rand, ngroups int) {
 					rest := s.args[k:]
 					c := capSpec{Name: n}
 					if len(rest) > 0 {
-						c.Text = src[rest[0].from+sh : rest[len(rest)-1].to+sh]
-						c.From, c.To = rest[0].from+sh, rest[len(rest)-1].to+sh
+						c.Text = src[at(rest[0].from) : at(rest[len(rest)-1].to)]
+						c.From, c.To = at(rest[0].from), at(rest[len(rest)-1].to)
 					} else {
 						c.Text = []byte{}
 					}
 					o.Caps = append(o.Caps, c)
 					continue
 				}
-				o.Caps = append(o.Caps, capSpec{Name: n, Text: src[s.args[k].from+sh : s.args[k].to+sh], Fix: s.args[k].e.fix, From: s.args[k].from + sh, To: s.args[k].to + sh})
+				o.Caps = append(o.Caps, capSpec{Name: n, Text: src[at(s.args[k].from) : at(s.args[k].to)], Fix: s.args[k].e.fix, From: at(s.args[k].from), To: at(s.args[k].to)})
 			}
-			o.Whole = capSpec{Text: src[s.from+sh : s.to+sh], From: s.from + sh, To: s.to + sh}
-			o.AtEOF = s.to+sh == len(src)
-			o.WPos, o.WEnd = s.from+sh, s.to+sh
+			o.Whole = capSpec{Text: src[at(s.from) : at(s.to)], From: at(s.from), To: at(s.to)}
+			o.AtEOF = at(s.to) == len(src)
+			o.WPos, o.WEnd = at(s.from), at(s.to)
 			if g.at != "" {
 				for k, n := range g.names {
 					if n == g.at {
-						o.WPos, o.WEnd = s.args[k].from+sh, s.args[k].to+sh
+						o.WPos, o.WEnd = at(s.args[k].from), at(s.args[k].to)
 					}
 				}
 			}
@@ -940,6 +1089,80 @@ func engineLevel(enc *json.Encoder, tmp string, rng *rand.Rand, ngroups int) {
 		}
 		if len(commentReports) != 2 {
 			enc.Encode(engineObs{K: "engine-comment", L: L, Missing: true, Extra: len(commentReports)})
+		}
+		// the family of comment rules with alike group names: every comment of the file against the simulated rule list
+		used := make([]bool, len(famReports))
+		for _, cg := range v.t.File.Comments {
+			for _, cm := range cg.List {
+				base := v.t.Fset.PositionFor(cm.Pos(), false).Offset
+				if base+len(cm.Text) > len(src) || string(src[base:base+len(cm.Text)]) != cm.Text {
+					if v.nl == nil {
+						fmt.Fprintln(os.Stderr, "cfam: comment text is not the file's bytes:", cm.Text)
+						os.Exit(3)
+					}
+					// a block comment of several lines in the CRLF version: the parser drops the carriage returns from its text,
+					// the offsets inside it are no longer those of the file (C12's known finding C12-crlf-comment): not judged here
+					end := v.t.Fset.PositionFor(cm.End(), false).Offset + strings.Count(cm.Text, "\n")
+					for k, r := range famReports {
+						if r.Pos >= base && r.Pos <= end {
+							used[k] = true
+						}
+					}
+					continue
+				}
+				exp := cfSimulate(commentRules, cm.Text, base)
+				var here []frep
+				for k, r := range famReports {
+					if !used[k] && r.Pos >= base && r.Pos <= base+len(cm.Text) {
+						used[k] = true
+						here = append(here, r)
+					}
+				}
+				isFam := exp.rule >= 0 && strings.HasPrefix(commentRules[exp.rule].group, "cf")
+				o := engineObs{K: "engine-cfam", L: L, Version: v.what, Comment: cm.Text, Rejected: exp.rejected, SrcN: len(src), WFile: v.t.Path}
+				if !isFam {
+					if len(here) == 0 {
+						o.K = "engine-cfam-none" // no rule of the family accepts and none reported: counted only
+						enc.Encode(o)
+						continue
+					}
+					o.Unexpected = true
+				} else {
+					r := commentRules[exp.rule]
+					o.Alt, o.Msg, o.Sugg, o.At, o.AltLines, o.WGroup = exp.alt, r.reportMsg(), r.sugg, r.at, r.lines, r.group
+					o.Rule, o.Stale, o.Caps, o.Whole = r.describe(exp.alt), exp.stale, exp.caps, exp.whole
+					o.WPos, o.WEnd = exp.whole.From, exp.whole.To
+					if r.at != "" {
+						for _, c := range exp.caps {
+							if c.Name == r.at {
+								o.WPos, o.WEnd = c.From, c.To
+								break
+							}
+						}
+					}
+					o.WMsg = []byte(interpSpec(o.Msg, exp.caps, exp.whole.Text, true, L))
+					o.WLine = r.lines[exp.alt]
+					if r.sugg != "" {
+						o.WSugg = []byte(interpSpec(r.sugg, exp.caps, exp.whole.Text, false, L))
+						o.WHasSugg = len(o.WSugg) != 0
+					}
+					if len(here) == 0 {
+						o.Missing = true
+						enc.Encode(o)
+						continue
+					}
+				}
+				r := here[0]
+				o.Extra = len(here) - 1
+				o.OMsg, o.OPos, o.OEnd, o.OLine, o.OGroup, o.OFunc, o.OFile = []byte(r.Message), r.Pos, r.End, r.Line, r.Group, r.fn, r.file
+				o.OHasSugg, o.OSuggFrom, o.OSuggTo, o.OSugg = r.HasSugg, r.SuggFrom, r.SuggTo, []byte(r.Sugg)
+				enc.Encode(o)
+			}
+		}
+		for k, r := range famReports {
+			if !used[k] {
+				enc.Encode(engineObs{K: "engine-stray", L: L, OMsg: []byte(r.Message), OPos: r.Pos, OEnd: r.End, OGroup: r.Group})
+			}
 		}
 		// the Suggest-only comment rule: spans from the file's bytes, texts by the specification
 		if ix := regexp.MustCompile(`gamma-(\w+)`).FindSubmatchIndex(src); ix != nil {
